@@ -1,0 +1,11 @@
+//go:build verif
+
+package services
+
+import "io"
+
+// VerifReadServiceInfo exposes the generated ServiceInfo decoder to the verification harness.
+func VerifReadServiceInfo(r io.Reader) (ServiceInfo, error) { return readServiceInfo(r) }
+
+// VerifWriteServiceInfo exposes the generated ServiceInfo encoder to the verification harness.
+func VerifWriteServiceInfo(s ServiceInfo, w io.Writer) error { return writeServiceInfo(s, w) }
